@@ -21,6 +21,19 @@ CHECKS["C01"] = dict(
     note="Trusted: kvshim's interposition covers every mutating fs call of the engine (open/write/fsync/fdatasync/ftruncate/rename/unlink), the power-loss model stated in the property, the in-harness copy of the server's recover-or-fresh decision, tmpfs. Bounds: depth 3 quick / 4 thorough, ids {1,2}, 4-8 configurations. Known findings (partial batch delete, periodic idle tail never flushed) are listed in known_findings.txt.",
 )
 
+CHECKS["C03"] = dict(
+    engine="crashmc", category="fault_enumeration", design_ref="DESIGN.md 3.3",
+    technique="exhaustive single (and, thorough, double) fault injection at the libc boundary: for every prefix history and write op, the n-th fs call x errno x short-write length, plus every invalid-input class; live and recovered state compared with the reference map",
+    text="For every configuration, every prefix history up to the depth bound and every write operation, a fault-free run counts the file-system calls the operation issues under the data directory; then every call index x errno {ENOSPC,EIO,EDQUOT,EINTR,EACCES} is failed in turn, every write is additionally shortened with the continuation failing, and (thorough) a second fault is placed 1..6 calls after the first so that it lands in the engine's own rollback/retry. Every invalid-input class (wrong dimension, zero, NaN, +-Inf, overflow, f32::MAX, subnormal, tiny, index full) is applied to new and existing ids. After each call: Err => live and recovered collection equal the pre-call state; Ok => equal the model after the call; a follow-up valid write obeys the same oracle.",
+    note="Trusted: kvshim's fault injection (errno / short count returned at the libc symbol), logical clock for retry back-off, tmpfs. Write paths covered: HnswBackend insert/delete/batch_delete/update_metadata/create_snapshot (TieredEngine and server paths are covered by C15's refused-input checks). Bounds: prefix depth 2 quick / 3 thorough.",
+)
+CHECKS["C13"] = dict(
+    engine="crashmc", category="fault_enumeration", design_ref="DESIGN.md 3.13",
+    technique="complete single-fault enumeration over clean-shutdown data directories: every file x (every bit flip, every truncation length, deletion), each recovered with strict HnswBackend::recover",
+    text="Clean-shutdown directories are produced by a fixed list of histories (several sessions, two snapshots, rotated and compacted segments). Files are a few hundred bytes, so the single-fault space is enumerated completely: every bit of every byte, every truncation length, and deletion, for MANIFEST, every snapshot and every WAL segment. Strict recovery must refuse or reproduce the pre-damage dump exactly; outcomes on the newest segment that equal a plain truncation of that segment are the excluded torn-tail case. Faults on which start-up aborts or panics are counted as refusals.",
+    note="Trusted: the directories are representative (fixed list, 2 quick / 5 thorough), single faults only. Findings are signed by (file role, fault kind, structural field, symptom); known findings in known_findings.txt (torn-tail tolerance on non-newest segments, MANIFEST without checksum).",
+)
+
 # properties not claimed (yet): id -> reason
 NOT_APPLICABLE = {}
 
